@@ -503,10 +503,21 @@ def lift(ctx, rule, label, mod, prop, rules, why, key_filter=None, floor=1):
 def ms_to_s_term_ok(t, path, group_pattern):
     """Is `t` (text of a term) float(<timestamp group, decimal comma turned into a point>) scaled by exactly 1/1000?  The comma may be
     replaced unconditionally, or only on the paths where the group contains one (then the path must have decided `',' in <group>` False)."""
-    m = re.match(r"^float\((?P<tsgrp>(?:%s))(?P<tsrep>\.replace\(',', '\.'\))?\) (?:/ 1000(?:\.0*)?|\* (?:0\.001|1e-0?3))$" % group_pattern, t)
+    m = re.match(r"^float\((?P<tsgrp>(?:%s))(?P<tsrep>\.replace\(',', '\.'\)|\.translate\((?P<tbl>[\w.]+|str\.maketrans\(',', '\.'\))\))?\) (?:/ 1000(?:\.0*)?|\* (?:0\.001|1e-0?3))$" % group_pattern, t)
     if not m:
         return False
     if m.group('tsrep'):
+        tbl = m.group('tbl')
+        if tbl and not tbl.startswith('str.maketrans('):
+            # s.translate(TABLE) with TABLE = str.maketrans(',', '.') at module level is s.replace(',', '.')
+            ok_tbl = False
+            for e in path.events:
+                f_ = getattr(e, 'func', None)
+                if f_ is not None:
+                    r_ = f_.repo.lookup(f_.module, tbl) if '.' not in tbl else None
+                    ok_tbl = bool(r_) and r_[0] == 'var' and r_[1] is not None and norm(r_[1]) in ("str.maketrans(',', '.')", "{44: '.'}", "{44: 46}", "{ord(','): '.'}", "{ord(','): ord('.')}")
+                    break
+            return ok_tbl
         return True
     g = m.group('tsgrp')
     for a, v in path.decisions:
@@ -788,3 +799,16 @@ def check_not_mutated_in_place(ctx, rule, attr, what, allowed_mutators=()):
                                   '%s is handed to %s in a position that is only read' % (what, g.short),
                                   '%s is handed to %s as `%s`, which that function changes in place: %s changes without being replaced' % (what, g.short, g.params()[j], what))
     ctx.floor(rule, n_uses, 2, 'calls that receive %s' % what)
+
+
+def confirm_scenarios(rule, probs, mapper, irrelevant=()):
+    """A scenario rule (sim.check_reach) found a path whose outcome contradicts the table.  The finding stands only when the table could read
+    the path: every decision on it is one the mapper knows, or one of the frozen decisions that do not bear on the rule (`irrelevant`, regular
+    expressions confirmed on the pinned tree).  A path that hangs on a decision the table has no column for - the function was rewritten around
+    other tests - cannot be compared with the table: the clause is undecided (AnalysisError), not violated."""
+    for q in probs:
+        path = q[0]
+        unknown = [a.text for a, v in path.decisions if mapper(a) is None and not any(re.match(r_, a.text) for r_ in irrelevant)]
+        if unknown:
+            raise AnalysisError('%s: the function decides on `%s`, which the scenario table of the rule does not know' % (rule, unknown[0][:100]))
+    return probs
